@@ -467,6 +467,18 @@ class Interp:
                 return items if f.id == "list" else tuple(items)
             if f.id == "bool" and len(args) == 1:
                 return self.truth(args[0])
+            if f.id in ("int", "float") and len(args) == 1:
+                v = args[0]
+                if isinstance(v, bool) or isinstance(v, (int, float)):
+                    return int(v) if f.id == "int" else float(v)
+                if isinstance(v, str):
+                    try:
+                        return int(v) if f.id == "int" else float(v)
+                    except ValueError:
+                        raise PyRaise("ValueError", f"{f.id}({v!r})") from None
+                raise PyRaise("TypeError", f"{f.id}() argument")
+            if f.id == "abs" and len(args) == 1 and isinstance(args[0], (int, float)):
+                return abs(args[0])
             if f.id == "sum" and len(args) == 1:
                 tot = 0
                 for x in self.iterate(args[0]):
